@@ -119,17 +119,21 @@ def gen_invocation(rng, idx):
         if nul and lines:
             lines[rng.randrange(len(lines))] += "a\x00b"
         inputs.append(lines)
-    flags = []
+    groups = []
     if rng.random() < 0.5:
-        flags.append(rng.choice(["-n", "--line-number"]))
+        groups.append([rng.choice(["-n", "--line-number"])])
     if rng.random() < 0.4:
-        flags.append(rng.choice(["-h", "--no-filename"]))
-    color = rng.choice(["none", "never", "always", "always"])
+        groups.append([rng.choice(["-h", "--no-filename"])])
+    color = rng.choice(["none", "never", "always", "always", "always", "auto"])
     if color != "none":
-        flags.append("--color=" + color)
-    rng.shuffle(flags)
+        if rng.random() < 0.25:
+            groups.append(["--color", color])          # space-separated form
+        else:
+            groups.append(["--color=" + color])
+    rng.shuffle(groups)
+    flags = [f for g in groups for f in g]
     names = rng.sample(["in1.txt", "b.log", "データ.txt", "with space.txt", "x"], max(1, nfiles))
-    return {"idx": idx, "f_pats": f_pats, "p_pats": p_pats, "stdin": stdin_mode, "inputs": inputs, "names": names[: max(1, nfiles)], "flags": flags, "color": color == "always"}
+    return {"idx": idx, "f_pats": f_pats, "p_pats": p_pats, "stdin": stdin_mode, "inputs": inputs, "names": names[: max(1, nfiles)], "flags": flags, "color": color == "always", "auto": color == "auto"}
 
 
 def occurrences(pats_b, line_b):
@@ -280,7 +284,10 @@ def check_invocation(inv, binary, workdir, use_valgrind=False):
         text = plain[pos:]
         if text != lb:
             return False, "output line %d: text %r differs from input line %d %r (or an unrelated/suppressed line was printed)" % (k, text[:120], i, lb[:120]), stats, observed
-        if not inv["color"]:
+        # --color=auto: whether colouring is enabled is the tool's decision (stdout is a pipe here); if
+        # it emits any escape sequence on this run it is held to the colouring clause, otherwise to the plain one
+        coloured = inv["color"] or (inv.get("auto") and b"\x1b" in out)
+        if not coloured:
             if any(h for _, h in cells):
                 return False, "output line %d is highlighted without --color=always" % k, stats, observed
             if len(cells) != len(raw):
@@ -307,6 +314,7 @@ def check_invocation(inv, binary, workdir, use_valgrind=False):
 
 def inv_json(inv, observed=None, message=None, build=None):
     j = {k: inv[k] for k in ("idx", "f_pats", "p_pats", "stdin", "inputs", "names", "flags", "color")}
+    j["auto"] = bool(inv.get("auto"))
     if observed:
         j["observed"] = {"argv": observed.get("argv"), "exit": observed.get("exit"),
                          "stdout": observed.get("stdout", b"").decode("utf-8", "backslashreplace")[:4000],
